@@ -65,7 +65,9 @@ func directiveInsertWordBreaks(value data.Value, args []data.Value) data.Value {
 		}
 	}
 	if output == nil {
-		return value
+		// no break inserted: the result is still the escaped text, since this
+		// directive cancels autoescaping.
+		return data.String(input)
 	}
 	return data.String(output.String())
 }
